@@ -149,6 +149,12 @@ func c11Exec(ctx *vk.Ctx, c c11Case) error {
 }
 
 func c11Oracle(ctx *vk.Ctx, c c11Case) error {
+	_, err := c11OracleRes(ctx, c)
+	return err
+}
+
+// c11OracleRes is the outcome oracle; it also hands back what was observed.
+func c11OracleRes(ctx *vk.Ctx, c c11Case) (c11Result, error) {
 	ctx.Class("src=" + c.Src)
 	ctx.Class("mode=" + c.Mode)
 	t0 := time.Now()
@@ -181,21 +187,21 @@ func c11Oracle(ctx *vk.Ctx, c c11Case) error {
 		what, site := c11DeathSite(res.DeathMsg)
 		if !confirmed {
 			ctx.Class("death-unconfirmed")
-			return nil
+			return res, nil
 		}
 		ctx.NT()
 		key := "death@" + site
 		if knownHit || isKnown(res) {
-			return nil
+			return res, nil
 		}
-		return fmt.Errorf("the node process died while handling the submission (confirmed alone): %s; key %q\n%s", what, key, c11Bound(res.DeathMsg, 5000))
+		return res, fmt.Errorf("the node process died while handling the submission (confirmed alone): %s; key %q\n%s", what, key, c11Bound(res.DeathMsg, 5000))
 	case res.TimedOut:
 		if !confirmed {
 			ctx.Class("timeout-unconfirmed")
-			return nil
+			return res, nil
 		}
 		ctx.NT()
-		return fmt.Errorf("no answer within %v for a run bounded by %d gas (confirmed alone with a 10x budget)", 10*c11Budget(c.Gas), c.Gas)
+		return res, fmt.Errorf("no answer within %v for a run bounded by %d gas (confirmed alone with a 10x budget)", 10*c11Budget(c.Gas), c.Gas)
 	}
 	o := res.Out
 	if p := os.Getenv("C11_LOG"); p != "" { // calibration aid
@@ -224,32 +230,32 @@ func c11Oracle(ctx *vk.Ctx, c c11Case) error {
 		if o.Class == c11VMReject {
 			ctx.Class("vm-rejected@" + o.Site)
 		}
-		return nil
+		return res, nil
 	case c11Mismatch:
 		// the replica did not reproduce the keeper's VM panic: no verdict
 		ctx.Class("replica-mismatch")
-		return nil
+		return res, nil
 	case "mem-exceeded":
 		if !confirmed {
-			return nil
+			return res, nil
 		}
 		ctx.NT()
 		key := "memory@" + o.Site
 		if knownHit || isKnown(res) {
-			return nil
+			return res, nil
 		}
-		return fmt.Errorf("live memory far above the allocation limit (confirmed alone): %s; key %q\n%s", o.Detail, key, o.Stack)
+		return res, fmt.Errorf("live memory far above the allocation limit (confirmed alone): %s; key %q\n%s", o.Detail, key, o.Stack)
 	case c11GoRuntime, c11GoInvariant:
 		if !confirmed {
-			return nil
+			return res, nil
 		}
 		k1, k2 := o.Class+"@"+o.Site, o.Class+"@"+o.Func
 		if knownHit || isKnown(res) {
-			return nil
+			return res, nil
 		}
-		return fmt.Errorf("Go-level fault of the interpreter (%s, %s): %s\nsite %s (%s); keys %q / %q\n%s", o.Class, o.GoType, o.Detail, o.Site, o.Func, k1, k2, o.Stack)
+		return res, fmt.Errorf("Go-level fault of the interpreter (%s, %s): %s\nsite %s (%s); keys %q / %q\n%s", o.Class, o.GoType, o.Detail, o.Site, o.Func, k1, k2, o.Stack)
 	}
-	return fmt.Errorf("unclassified outcome %+v", o)
+	return res, fmt.Errorf("unclassified outcome %+v", o)
 }
 
 func c11Draw(rt *rapid.T) c11Case {
